@@ -51,7 +51,7 @@ enum PolState {
     Random { p: u64 },
     Pct { prio: Vec<i64>, change: Vec<usize>, next_low: i64 },
     OpGranular { p: u64 },
-    Stall { victim: usize, at: u32, p: u64, hits: u32, done: bool },
+    Stall { victim: usize, at: u32, p: u64, hits: u32, done: bool, release: u32, seen: u32 },
 }
 
 pub struct Sched {
@@ -123,12 +123,19 @@ impl Sched {
                     next_low: *d as i64,
                 }
             }
-            Policy::Stall { victim, at, p } => PolState::Stall {
+            Policy::Stall {
+                victim,
+                at,
+                p,
+                release,
+            } => PolState::Stall {
                 victim: *victim,
                 at: *at,
                 p: *p as u64,
                 hits: 0,
                 done: false,
+                release: *release,
+                seen: 0,
             },
         };
         let mut held = vec![false; n];
@@ -244,6 +251,17 @@ impl Sched {
                         self.stalled = Some(m);
                         self.stalls += 1;
                     }
+                }
+            }
+        }
+        // bounded stall: release the victim after `release` operation boundaries of others
+        if let (PolState::Stall { release, seen, .. }, Some(st), Point::OpBoundary) =
+            (&mut self.pol, self.stalled, point)
+        {
+            if *release > 0 && me != Some(st) {
+                *seen += 1;
+                if *seen >= *release {
+                    self.stalled = None;
                 }
             }
         }
